@@ -5,6 +5,7 @@ import ErgoProofs.Lemmas.ReachInv
 import ErgoProofs.Lemmas.StorageThm
 import ErgoProofs.Lemmas.CodecInst
 import ErgoProofs.Lemmas.HalfClaim
+import ErgoProofs.Lemmas.CompactAny
 namespace Ergo
 
 /-- for every history the CLI can produce: replaying the compacted log succeeds, every live item's observable data
@@ -92,5 +93,14 @@ theorem C05_state_and_claimant_survive_for_every_task (t : Task) :
 theorem C05_half_written_claim_preserved (log : List Event) (h : ReachOK log) (id agent : Id) (ts : Time) (hts : ts ≠ 0) :
     ∃ g g', replay (log ++ [Event.claim id agent (some ts)]) = .ok g ∧ replay (compactEvents g) = .ok g' ∧ ObsEq g' g ∧ g'.tombs = [] :=
   compact_half_claim log h id agent ts hts
+
+/-- without any hypothesis on the log beyond "its event loop succeeds" — hand-merged logs, stamps in any order (a clock set back, a collaborator's fast
+    clock), torn claims, items no CLI history produces: replaying the compacted log succeeds and every item, looked up by id, is what it was — kind,
+    state, claimant, title, body, results in order with their evidence, creation time, a task's epic — and the edges are the same.  (What may move on
+    such logs is `updated_at`, and the pruned ids' tombstones go: DESIGN §6.) -/
+theorem C05_items_survive_compaction_of_any_log (log : List Event) (g : Graph) (hr : replayRaw log = .ok g) :
+    ∃ g', replayRaw (compactEvents g) = .ok g' ∧ (∀ id, (g'.find? id).map Task.core = (g.find? id).map Task.core) ∧
+      (∀ e, e ∈ g'.deps ↔ e ∈ g.deps) ∧ g'.tombs = [] :=
+  compact_any_log log g hr
 
 end Ergo
